@@ -60,7 +60,12 @@ Definition arg_toks (a : arg) : list tk := flat_map node_toks (arg_nodes a).
 Definition args_toks (args : list (string * arg)) : list tk := flat_map (fun fa => arg_toks (snd fa)) args.
 
 (* the arguments' tokens are pairwise distinct objects (within and across arguments), and none of them
-   has an identity the construction is going to mint (next, next+1, ...) *)
+   has an identity the construction is going to mint (next, next+1, ...). In the implementation the
+   second half is automatic (a freshly created token object is a new object) and the first half is the
+   condition under which from_children does not raise: TokenStore.from_tokens raises ValueError('The same
+   token is listed twice.') otherwise (e.g. Open.from_children(date, account, [cur, cur])). The model's
+   `construct` does not model that exception: it returns a store with a repeated token, which is why the
+   hypothesis is needed here. *)
 Definition args_fresh (args : list (string * arg)) (next : Z) : Prop :=
   NoDup (ids (args_toks args)) /\ forall t, In t (args_toks args) -> (k_id t < next)%Z.
 Definition args_fresh_b (args : list (string * arg)) (next : Z) : bool :=
